@@ -23,7 +23,7 @@ META = {
                    "Does NOT decide agreement of the computed results nor the accuracy contracts of the compiled code.",
     "assumptions": ["the C++ sources are read by a tolerant parser for the constructs they use today; anything else is an analysis error",
                     "square local problems in the C++ operator object (its result is flattened with the shape of its argument)"],
-    "floors": {"BIND": 2, "BIND-ARG": 29, "PREC-TABLE": 3, "DISPATCH": 4, "E5-CHAIN": 14, "CPP-CONST": 3},
+    "floors": {"BIND": 2, "BIND-ARG": 29, "DISPATCH": 4, "E5-CHAIN": 14, "CPP-CONST": 3},
 }
 ANCHORS = ["solvers.amen_solve", "_dmrg.dmrg_matvec", "solvers._amen_solve_python", "_dmrg.dmrg_matvec_python"]
 
@@ -375,8 +375,12 @@ def check(model: Model, tier: str):
     if not unit.files:
         return [Ob("BIND", "cpp:BIND:sources", ERROR, "cpp/", "cpp", "C++ sources not found")], {}
     obs += rule_bind(model, unit)
-    obs += rule_prec_table(model, unit)
+    sem = e5ob.for_property(model, "C17", tier)
+    from .common import cross_reference
+    # which code reaches the compiled solver for each preconditioner is decided by evaluating amen_solve with the backend enabled
+    # (e5/scenarios6.py, amen_solve.cpp-dispatch); the reading of the if/elif table is the cross-reference
+    obs += cross_reference(rule_prec_table(model, unit), [o for o in sem if "cpp-dispatch" in o.key], "E5 scenarios amen_solve.cpp-dispatch")
     obs += rule_dispatch(model)
     obs += rule_constants(model, unit)
-    obs += e5ob.for_property(model, "C17", tier)
+    obs += sem
     return obs, {"functions": ANCHORS, "cpp_units": sorted(unit.files), "cpp_functions": len(unit.funcs)}
